@@ -407,7 +407,7 @@ def _err_branch(h, bufvar, cnt_kind, where):
     return out, attempts
 
 
-def loop_facts(rel, cls, fn):
+def _loop_facts_ast(rel, cls, fn):
     func = _func(_cls(rel, cls), fn)
     pvars = _pattern_vars(func, "telnet" if fn.endswith("telnet") else "ssh")
     body = _while_body(func)
@@ -522,6 +522,210 @@ def loop_facts(rel, cls, fn):
         attempts0 = init.get(next(iter(attempts_vars)))
     return dict(order=order[:2], limits=limits, handler=handler, catches=catches, kicks=kicks, attempts0=attempts0,
                 err_branch=err_branch)
+
+
+# ---------------------------------------------------------------- the same facts MEASURED on the live classes
+class _End(BaseException):
+    """the scripted transport has nothing more: the loop would go on reading (until the timeout)"""
+
+
+class _Script:
+    """scripted transport: items are (bytes, clock advance before the read) or ("E", advance) = read raises ScrapliConnectionError"""
+
+    def __init__(self, items, clock):
+        from scrapli.transport.base import BaseTransportArgs
+        self._base_transport_args = BaseTransportArgs(transport_options={}, host="sim", port=23, timeout_socket=1, timeout_transport=0, logging_uid="")
+        self.items, self.clock, self.n, self.w = list(items), clock, 0, []
+
+    def _next(self):
+        from scrapli.exceptions import ScrapliConnectionError
+        if not self.items:
+            raise _End()
+        data, dt = self.items.pop(0)
+        self.n += 1
+        self.clock.now = self.clock.START + dt
+        if data == "E":
+            raise ScrapliConnectionError("scripted")
+        return data
+
+    def write(self, channel_input):
+        self.w.append((self.n, bytes(channel_input)))
+
+
+class _SyncScript(_Script):
+    def read(self):
+        return self._next()
+
+
+class _AsyncScript(_Script):
+    async def read(self):
+        return self._next()
+
+
+MLIT = {"username": b"uuu", "password": b"ppp", "passphrase": b"hhh"}
+MCRED = {"username": "USER", "password": "PASS", "passphrase": "PHRASE"}
+MPROMPT = b"zzz"
+MSG_KIND = (("username/login prompt seen", "username"), ("password prompt seen", "password"), ("passphrase prompt seen", "passphrase"))
+
+
+def _drive(is_async, fn, items):
+    """run the live login loop over a script: (outcome, [(read number, bytes written)]); outcome = running | done | connerror |
+    fatal | ('authfailed', kind)"""
+    import asyncio
+    from harness import logindevice as L
+    from scrapli.channel import AsyncChannel, Channel
+    from scrapli.channel.base_channel import BaseChannelArgs
+    from scrapli.exceptions import ScrapliAuthenticationFailed, ScrapliConnectionError
+    L.install_clock()
+    clock = L.FakeClock()
+    t = (_AsyncScript if is_async else _SyncScript)(items, clock)
+    args = BaseChannelArgs(auth_telnet_login_pattern="uuu", auth_password_pattern="ppp", auth_passphrase_pattern="hhh",
+                           comms_prompt_pattern="zzz", timeout_ops=10.0 * return_divisor() / 10)
+    ch = (AsyncChannel if is_async else Channel)(transport=t, base_channel_args=args)
+    f = getattr(type(ch), fn).__wrapped__
+    kw = dict(auth_username="USER", auth_password="PASS") if fn.endswith("telnet") else dict(auth_password="PASS", auth_private_key_passphrase="PHRASE")
+    L.use_clock(clock)
+    try:
+        if is_async:
+            asyncio.run(f(ch, **kw))
+        else:
+            f(ch, **kw)
+        oc = "done"
+    except _End:
+        oc = "running"
+    except ScrapliAuthenticationFailed as e:
+        oc = next((("authfailed", k) for m, k in MSG_KIND if str(e).startswith(m)), "fatal")
+    except ScrapliConnectionError:
+        oc = "connerror"
+    finally:
+        L.use_clock(None)
+    return oc, t.w
+
+
+def _answers(w, kind):
+    return [n for n, b in w if b == MCRED[kind].encode()]
+
+
+def measure_loop(cls, fn):
+    """the facts `_loop_facts_ast` reads off the AST, measured by driving the live loop with scripted reads.  Raises TranslateError when
+    the behaviour fits no modelled shape (one loop body: [handler] -> k1 block -> k2 block -> prompt test; blocks clear / count /
+    guard / write / return; optional catch of connection errors = return + attempt; optional kick)."""
+    a = cls.startswith("Async")
+    where = f"{cls}.{fn} (measured)"
+    ret = b"\n"
+
+    def bad(what):
+        raise TranslateError(f"{where}: {what}")
+    run = lambda items: _drive(a, fn, [(x, 0) if not isinstance(x, tuple) else x for x in items])
+    # which credentials are answered at all; a matched prompt is answered once (buffer cleared), by the credential then a return
+    tested = []
+    for k in KINDS:
+        oc, w = run([MLIT[k], b" "])
+        if w:
+            if oc != "running" or w != [(1, MCRED[k].encode()), (1, ret)]:
+                bad(f"a {k} prompt followed by a blank gives {oc} {w}")
+            tested.append(k)
+        elif oc != "running":
+            bad(f"an untested {k} prompt gives {oc}")
+    if len(tested) != 2:
+        bad(f"credentials answered: {tested}, expected two")
+    # order of the two tests: both in one buffer -> the first one tested is answered, the second sees the cleared buffer
+    oc, w = run([MLIT[tested[0]] + b" " + MLIT[tested[1]]])
+    first = [k for k in tested if _answers(w, k)]
+    if oc != "running" or len(first) != 1 or len(w) != 2:
+        bad(f"a buffer matching both credential patterns gives {oc} {w}")
+    order = [first[0], next(k for k in tested if k != first[0])]
+    # the prompt: alone -> return; together with a credential prompt -> the credential is answered, the prompt test sees b""
+    if run([MPROMPT]) != ("done", []):
+        bad("a prompt alone does not end the login")
+    for k in order:
+        oc, w = run([MPROMPT + b" " + MLIT[k]])
+        if oc != "running" or _answers(w, k) != [1]:
+            bad(f"prompt and {k} prompt in one buffer give {oc} {w}: the prompt is not tested after the credentials on the cleared buffer")
+    # thresholds: answered N times, the next sighting raises for that credential and writes nothing; counts are per credential and
+    # survive the other credential's answers
+    limits = {}
+    for k in order:
+        oc, w = run([MLIT[k]] * 7)
+        n = len(_answers(w, k))
+        if oc != ("authfailed", k) or _answers(w, k) != list(range(1, n + 1)) or len(w) != 2 * n:
+            bad(f"repeated {k} prompts give {oc} {w}")
+        limits[k] = n
+    k1, k2 = order
+    seq = []
+    for i in range(max(limits.values()) + 1):
+        seq += [MLIT[k1], MLIT[k2]]
+    oc, w = run(seq)
+    exp_fail = k1 if limits[k1] <= limits[k2] else k2
+    if oc != ("authfailed", exp_fail) or len(_answers(w, k1)) != min(limits[k1], limits[exp_fail] + (0 if exp_fail == k1 else 1)):
+        bad(f"alternating prompts give {oc} {w}: the counts are not independent per credential")
+    # the ssh message handler: a fatal message ends the login before any pattern test
+    oc, w = run([b"x: Permission denied (publickey). " + MLIT[k1]])
+    if oc == "fatal" and not w:
+        handler = True
+    elif oc == "running" and _answers(w, k1) == [1]:
+        handler = False
+    else:
+        bad(f"a fatal ssh message next to a {k1} prompt gives {oc} {w}")
+    # connection error from read(): let out, or answered with a return and one more attempt, buffer and counters untouched
+    oc, w = run(["E"])
+    if oc == "connerror" and not w:
+        catches = False
+    elif oc == "running" and w == [(1, ret)]:
+        catches = True
+        oc, w = run([MLIT[k1][:2], "E", MLIT[k1][2:]])
+        if oc != "running" or _answers(w, k1) != [3]:
+            bad(f"a connection error inside a {k1} prompt gives {oc} {w}: the branch touches the buffer")
+        oc, w = run([MLIT[k1]] * limits[k1] + ["E", MLIT[k1]])
+        if oc != ("authfailed", k1):
+            bad(f"a connection error between {k1} prompts gives {oc} {w}: the branch touches the counters")
+    else:
+        bad(f"a connection error from read() gives {oc} {w}")
+    # the kick: an EMPTY read after more than interval * attempts (interval = 1 clock unit here) is answered with one return
+    fired = [bool(run([(b"", t)])[1]) for t in (0.5, 1.0, 1.5, 2.0, 2.5, 9.0)]
+    shapes = {(False, False, True, True, True, True): 1, (False, False, False, False, True, True): 2, (True,) * 6: 0}
+    kicks, attempts0 = False, None
+    if any(fired):
+        if tuple(fired) not in shapes:
+            bad(f"empty reads at 0.5 .. 2.5, 9 intervals are answered {fired}: not `elapsed > interval * attempts`")
+        kicks, attempts0 = True, shapes[tuple(fired)]
+        a0 = attempts0
+        oc, w = run([(b"", a0 + 0.5), (b"", a0 + 0.75), (b"", a0 + 1.5), (b"x", a0 + 9.0)])
+        if oc != "running" or w != [(1, ret), (3, ret)]:
+            bad(f"successive empty reads give {oc} {w}: the kick is not send_return(); attempts += 1 on empty reads only")
+    if catches:
+        # the return sent for a connection error counts as an attempt
+        a0 = attempts0 if attempts0 is not None else None
+        if kicks:
+            oc, w = run(["E", (b"", a0 + 0.5), (b"", a0 + 1.5)])
+            if w != [(1, ret), (3, ret)]:
+                bad(f"connection error then empty reads give {oc} {w}: the error branch does not bump the attempts")
+        else:
+            bad("a loop that answers connection errors but never kicks is not modelled")
+    return dict(order=order, limits=limits, handler=handler, catches=catches, kicks=kicks, attempts0=attempts0,
+                err_branch=[".sendReturn", ".bumpAttempts", ".cont"] if catches else [])
+
+
+def loop_facts(rel, cls, fn):
+    """AST first (and then cross-checked against the measurement); where the source no longer has the familiar shape the facts
+    are MEASURED on the live class; TranslateError only when the measurement fits no modelled shape, or contradicts the AST"""
+    try:
+        m, merr = measure_loop(cls, fn), None
+    except TranslateError as e:
+        m, merr = None, e
+    try:
+        f = _loop_facts_ast(rel, cls, fn)
+    except TranslateError as e:
+        if m is None:
+            raise TranslateError(f"{e}; and {merr}")
+        return m
+    if m is None:
+        raise merr
+    if not f["kicks"] and not f["catches"]:
+        f = dict(f, attempts0=None)
+    if f != m:
+        raise TranslateError(f"{rel}: {fn}: the loop as read from the AST {f} and as measured on {cls} {m} differ")
+    return _loop_facts_ast(rel, cls, fn)
 
 
 def _is_state(st, bufvar, cnt_kind):
